@@ -294,10 +294,10 @@ func nodeProps(n pipeline.Node, ref func(pipeline.Node) (string, bool)) string {
 
 // Fingerprint of a pipeline.
 type Fingerprint struct {
-	Strict string // DOT + pipeline JSON + per-node dump in walk order (names and ids included)
-	Canon  string // id-independent: multiset of node signatures (type, properties, ordered parent signatures)
-	Nodes  int
-	Kinds  []string
+	Strict  string // DOT + pipeline JSON + per-node dump in walk order (names and ids included)
+	Canon   string // id-independent: multiset of node signatures (type, properties, ordered parent signatures)
+	Nodes   int
+	Kinds   []string
 	Mutated string // non-empty: json.Marshal(pipeline) changed the pipeline's own nodes (first difference of the dumps)
 }
 
